@@ -9,6 +9,7 @@ import (
 	"fmt"
 	"io"
 	"net/url"
+	"regexp"
 	"runtime"
 	"sort"
 	"strings"
@@ -200,10 +201,21 @@ type Result struct {
 	StoreCalls   int
 }
 
+// Credential VALUES are not part of an execution's identity: JWTs signed with an ECDSA key carry real randomness (go-jose keeps
+// the reader it found at init), and a violation's detail may quote a response. The hash is taken over the scrubbed lines.
+var credentialRE = regexp.MustCompile(`eyJ[A-Za-z0-9_-]+\.[A-Za-z0-9_-]*\.[A-Za-z0-9_-]*|ory_[a-z]{2,3}_[A-Za-z0-9_-]+(\.[A-Za-z0-9_-]+)?`)
+
+func scrubCredentials(l string) string {
+	if !strings.Contains(l, "eyJ") && !strings.Contains(l, "ory_") {
+		return l
+	}
+	return credentialRE.ReplaceAllString(l, "<credential>")
+}
+
 func hashLog(log []string) string {
 	h := sha256.New()
 	for _, l := range log {
-		io.WriteString(h, l)
+		io.WriteString(h, scrubCredentials(l))
 		io.WriteString(h, "\n")
 	}
 	return hex.EncodeToString(h.Sum(nil)[:8])
